@@ -32,24 +32,29 @@ Lemma index_in_range : forall d m, dist_wf d -> 0 <= mid_to_index d m < bm_size 
 Proof.
   intros d m [Ho Hb Hs _ _]. unfold mid_to_index.
   pose proof (dist_size_ge3 _ _ _ Ho Hb) as H3. rewrite <- Hs in H3.
+  destruct (Z.gtb_spec m max_i64); [lia|].
   destruct (Z.ltb_spec (to_i64 m) (d_from d)); [lia|].
   destruct (Z.gtb_spec (to_i64 m) (d_to d)); [lia|].
   rewrite quot_nonneg by (try apply sub_ns_nonneg; lia).
   rewrite Hs. unfold dist_size. rewrite quot_nonneg by (try apply sub_ns_nonneg; lia).
-  pose proof (Z.div_pos (sub_ns (to_i64 m) (d_from d)) (d_bucket d) (sub_ns_nonneg _ _ H) Hb).
+  pose proof (Z.div_pos (sub_ns (to_i64 m) (d_from d)) (d_bucket d) (sub_ns_nonneg _ _ H0) Hb).
   assert (sub_ns (to_i64 m) (d_from d) / d_bucket d <= sub_ns (d_to d) (d_from d) / d_bucket d).
   { apply Z.div_le_mono; [lia|]. apply sub_ns_mono. lia. }
   lia.
 Qed.
 
-(* second half: monotone on the MIDs below 2^63 *)
-Lemma index_monotone : forall d m1 m2, dist_wf d -> 0 <= m1 -> m1 <= m2 -> m2 < two63 ->
+(* second half: monotone on ALL MIDs (since 6d376ea a MID beyond int64 maps to the overflow bucket) *)
+Lemma index_monotone : forall d m1 m2, dist_wf d -> 0 <= m1 -> m1 <= m2 ->
   mid_to_index d m1 <= mid_to_index d m2.
 Proof.
-  intros d m1 m2 Hwf H0 H12 H2.
+  intros d m1 m2 Hwf H0 H12.
   pose proof (index_in_range d m1 Hwf) as R1. pose proof (index_in_range d m2 Hwf) as R2.
   destruct Hwf as [Ho Hb Hs _ _].
-  unfold mid_to_index in *. rewrite !to_i64_small in * by lia.
+  unfold mid_to_index in *. unfold max_i64 in *.
+  destruct (Z.gtb_spec m2 (two63 - 1)) as [G2|G2].
+  { destruct (Z.gtb_spec m1 (two63 - 1)); lia. }
+  destruct (Z.gtb_spec m1 (two63 - 1)) as [G1|G1]; [lia|].
+  rewrite !to_i64_small in * by lia.
   destruct (Z.ltb_spec m1 (d_from d)); [lia|].
   destruct (Z.ltb_spec m2 (d_from d)); [lia|].
   destruct (Z.gtb_spec m1 (d_to d)).
@@ -126,12 +131,12 @@ Proof.
 Qed.
 
 (* the occupancy map never hides an added MID: every query interval [qf, qt] that contains an
-   added m (everything below 2^63) intersects *)
+   added m intersects (all uint64, no bound on the query ends) *)
 Lemma dist_intersect_sound : forall d0 ms m qf qt,
-  dist_wf d0 -> In m ms -> 0 <= qf -> qf <= m -> m <= qt -> qt < two63 ->
+  dist_wf d0 -> In m ms -> 0 <= qf -> qf <= m -> m <= qt ->
   dist_is_intersecting (fold_left dist_add ms d0) qf qt = true.
 Proof.
-  intros d0 ms m qf qt Hwf Hin H0 H1 H2 H3.
+  intros d0 ms m qf qt Hwf Hin H0 H1 H2.
   destruct (fold_add_wf ms d0 Hwf) as [W [S [_ I]]].
   set (d := fold_left dist_add ms d0) in *.
   unfold dist_is_intersecting. destruct (Z.eqb_spec (d_bucket d) 0) as [|_]; [reflexivity|].
@@ -270,11 +275,11 @@ Qed.
    interval that contains a document, and the Info survives Save / Load unchanged *)
 Lemma build_sound : forall creation docs ids m qf qt,
   is_u64 creation -> docs_ok docs -> In m docs -> In m ids ->
-  0 <= qf -> qf <= m -> m <= qt -> qt < two63 ->
+  0 <= qf -> qf <= m -> m <= qt ->
   let i := build_distribution (active_info creation docs) ids in
   info_is_intersecting i qf qt = true /\ info_roundtrip i = Some i.
 Proof.
-  intros creation docs ids m qf qt Hc Hdocs Hm Hmi H0 H1 H2 H3 i.
+  intros creation docs ids m qf qt Hc Hdocs Hm Hmi H0 H1 H2 i.
   pose proof (active_info_borders creation docs m Hm) as [B1 B2].
   pose proof (active_info_total creation docs m Hm) as Ht.
   pose proof (active_info_from_u64 creation docs Hdocs) as Hfu.
@@ -286,7 +291,7 @@ Proof.
     set (d' := fold_left dist_add ids d) in *.
     split.
     + rewrite (info_isect_borders _ m) by (simpl; auto; lia). simpl.
-      apply (dist_intersect_sound d ids m qf qt W Hmi H0 H1 H2 H3).
+      apply (dist_intersect_sound d ids m qf qt W Hmi H0 H1 H2).
     + unfold info_roundtrip. simpl.
       destruct (dist_json_roundtrip d' 60 W' ltac:(lia) ltac:(rewrite S3; exact Hb)
                   ltac:(rewrite S1; exact Rf) ltac:(rewrite S2; exact Rt)) as [j [J1 J2]].
@@ -299,12 +304,12 @@ Qed.
 (* thm:C14_intersect_sound *)
 Theorem intersect_sound : forall creation docs m qf qt,
   is_u64 creation -> docs_ok docs -> In m docs ->
-  0 <= qf -> qf <= m -> m <= qt -> qt < two63 ->
+  0 <= qf -> qf <= m -> m <= qt ->
   info_is_intersecting (active_info creation docs) qf qt = true /\
   info_is_intersecting (sealed_info creation docs) qf qt = true /\
   info_roundtrip (sealed_info creation docs) = Some (sealed_info creation docs).
 Proof.
-  intros creation docs m qf qt Hc Hdocs Hm H0 H1 H2 H3. split.
+  intros creation docs m qf qt Hc Hdocs Hm H0 H1 H2. split.
   - pose proof (active_info_borders creation docs m Hm) as [B1 B2].
     pose proof (active_info_total creation docs m Hm) as Ht.
     rewrite (info_isect_borders _ m) by (auto; lia). reflexivity.
